@@ -735,7 +735,15 @@ def make_draw_contract(fam):
             u = cls(**ref_kw).cdf(np.sort(a))
             dk = float(np.max(np.abs(u - (np.arange(1, 2001) - 0.5) / 2000)))
             bad = (not np.array_equal(a, b)) or a.shape != (2000,) or dk > 0.09
-            return {"confirmed": bool(bad), "detail": f"{fam}: same-seed equal={np.array_equal(a, b)}, shape={a.shape}, KS distance to constructed cdf={dk:.4f} (DKW bound 0.09 at 1e-12)"}
+            # a Generator given by the caller is consumed: two successive draws are the two halves of ONE stream
+            g = np.random.default_rng(11)
+            s0 = g.bit_generator.state
+            g1 = cls(**self_kw).draw_sample(500, **expl, random_state=g)
+            g2 = cls(**self_kw).draw_sample(500, **expl, random_state=g)
+            advanced = g.bit_generator.state != s0 and not np.array_equal(g1, g2)
+            bad = bad or not advanced
+            return {"confirmed": bool(bad), "detail": f"{fam}: same-seed equal={np.array_equal(a, b)}, shape={a.shape}, KS distance to constructed cdf={dk:.4f} (DKW bound 0.09 at 1e-12); "
+                                                      f"a Generator passed twice is advanced and gives different draws={advanced}"}
     Draw.__name__ = f"Draw_{fam}"
     return contract(D + fam + ".draw_sample", ["C07", "C08", "C19", "C11", "C06", "C16"], cases, name=f"draw_sample.{fam}")(Draw)
 
